@@ -3,6 +3,7 @@ import Nstd.Path.FsFail
 import Nstd.Path.FsUnlink
 import Nstd.Path.FsCopy
 import Nstd.Path.FsRename
+import Nstd.Path.FsCreateOk
 /-
   Property C19, file-system part: theorems about the algorithms of File.cpp / Directory.cpp
   (Nstd/Path/FsLib.lean) over the ASSUMED POSIX semantics of Nstd/Path/Fs.lean, for all worlds
@@ -62,6 +63,22 @@ theorem create_makes_parents (fs : Fs) (dir a : Bytes) (fault : Option Nat)
     (h : (dirCreateTop fs dir fault).2.1 = true) (ha : Ancestor a dir) :
     dirExists (dirCreateTop fs dir fault).1 a = true :=
   ancestors_exist _ dir a ((create_true_iff_exists_after fs dir fault).mp h) ha
+
+/-- Directory::create makes all missing parents: when every component of the path is a proper name and at
+    every prefix there is nothing yet or a real directory (`Clear`), Directory::create (no injected fault)
+    returns true and the directory exists afterwards — together with all its parents (`create_makes_parents`). -/
+theorem create_succeeds (fs : Fs) (dir : Bytes) (hch : chunks dir ≠ [])
+    (hclear : Clear fs (start0 dir) (chunks dir)) :
+    (dirCreateTop fs dir none).2.1 = true ∧ dirExists (dirCreateTop fs dir none).1 dir = true := by
+  have h : (dirCreateTop fs dir none).2.1 = true := by
+    unfold dirCreateTop
+    have := dirCreate_succeeds (dir.length + 1) fs dir 0 (by omega) hch hclear
+    cases hr : dirCreate (dir.length + 1) fs dir none 0 with
+    | mk fs' rest =>
+      obtain ⟨r, f, n⟩ := rest
+      rw [hr] at this
+      exact this
+  exact ⟨h, (create_true_iff_exists_after fs dir none).mp h⟩
 
 /-- Directory::create never changes or removes an existing entry and adds nothing but directories
     (whatever it returns). -/
@@ -153,6 +170,9 @@ example : resolve exWorld [97, 47, 102] false = .found [[115], [97], [102]] (.fi
 example : (fileCopy ⟨[([[115]], .dir), ([[115], [102]], .file [1, 2])]⟩ [102] [103] true .half).2.1 = false := by decide
 example : (fileCopy ⟨[([[115]], .dir), ([[115], [102]], .file [1, 2])]⟩ [102] [103] true .none).2.1 = true := by decide
 example : (dirCreateTop ⟨[([[115]], .dir)]⟩ [97, 47, 98] none).2.1 = true := by decide
+example : Clear ⟨[([[115]], .dir)]⟩ (start0 [97, 47, 98]) (chunks [97, 47, 98]) := by
+  show Clear _ [[115]] [[97], [98]]
+  exact ⟨by decide, by decide, Or.inl (by decide), by decide, by decide, Or.inl (by decide), trivial⟩
 example : (dirCreateTop ⟨[([[115]], .dir), ([[115], [97]], .file [1])]⟩ [97] none).2.1 = false := by decide
 example : Ancestor [97] [97, 47, 98] := Ancestor.parent (Ancestor.self _) (by decide : splitLast isSep [97, 47, 98] = some ([97], 47, [98])) (by decide)
 
